@@ -335,7 +335,7 @@ def monitors(props, start_snap, start_dump, oplist, leaf, serial_cache):
                                     else 'c06:two-successes-same-consumer-generation:%s' % ('null' if key[1] is None else 'int'),
                                     'requests %d and %d both succeeded carrying consumer_generation %s of %s' % (j, i, key[1], key[0])))
                     seen[key] = i
-    if any(p in props for p in ('C04', 'C05', 'C06', 'C07', 'C08', 'C09', 'C19')):
+    if 'NOSERIAL' not in props and any(p in props for p in ('C04', 'C05', 'C06', 'C07', 'C08', 'C09', 'C19')):
         ser0 = 'c07:' if any(p in props for p in ('C05', 'C06', 'C07')) else '%s:race:' % sorted(props)[0].lower()
         succ = [i for i in range(n) if ok(sts[i])]
         final = core(leaf['dump'])
@@ -518,8 +518,18 @@ def final_state_monitors(props, start_dump, oplist, leaf):
                 out.append(('c08:race:alloc-without-provider:%s' % kinds, str([rp, c, rc, used])))
             elif (rp, rc) not in im:
                 out.append(('c08:race:alloc-without-inventory:%s' % kinds, str([rp, c, rc, used])))
-            if c not in d['consumers'] and not new_consumer_race(start_dump, oplist):
-                out.append(('c08:race:alloc-without-consumer:%s' % kinds, str([rp, c, rc, used])))
+            if c not in d['consumers']:
+                if not new_consumer_race(start_dump, oplist):
+                    out.append(('c08:race:alloc-without-consumer:%s' % kinds, str([rp, c, rc, used])))
+                else:
+                    # the listed creation-race defect (C06 / C07 / C12) is: the request that CREATED the record removes it
+                    # in its clean-up; a removal by any other request is something else and is reported here
+                    sts_ = [r.status if r is not None else None for r in leaf['responses']]
+                    creators = set(leaf.get('consumer_creators') or [])
+                    removers = {i for (i, m, st) in leaf['trace'] if ('DELETE', 'consumers') in [tuple(x) for x in st] and not ok(sts_[i])}
+                    if not (removers and removers <= creators):
+                        out.append(('c08:race:alloc-without-consumer:new-consumer-race:%s'
+                                    % ('removed-by-non-creator' if removers else 'removed-by-successful-request'), str([rp, c, rc, used])))
         for r in d['invs']:
             if r[0] not in d['rps'] or str(r[1]).startswith('?'):
                 out.append(('c08:race:dangling-inventory:%s' % kinds, str(r)))
